@@ -174,7 +174,7 @@ func (m *vfCapMetadata) Load(vbIds []uint16, bucketUUID string) (*wrapper.Concur
 // seqno is fatal (not exercised here: the panic is raised on a csmap worker goroutine and ends the process).
 func TestVerifFallbackCheckpointLoad(t *testing.T) {
 	r := rand.New(rand.NewSource(11))
-	for it := 0; it < 200; it++ {
+	for it := 0; it < 600; it++ {
 		n := 1 + r.Intn(5)
 		var ids []uint16
 		for i := 0; i < n; i++ {
@@ -202,7 +202,25 @@ func TestVerifFallbackCheckpointLoad(t *testing.T) {
 				if high > 0 {
 					seq = uint64(r.Intn(int(high) + 1))
 				}
-				md.docs[vb] = &models.CheckpointDocument{BucketUUID: "b", Checkpoint: &models.CheckpointDocumentCheckpoint{VbUUID: 100 + uint64(vb), SeqNo: seq, Snapshot: &models.CheckpointDocumentSnapshot{StartSeqNo: seq / 2, EndSeqNo: seq + 3}}}
+				// snapshot shapes, including every coincidence of the position with a snapshot bound
+				start, end := seq/2, seq+3
+				switch r.Intn(6) {
+				case 0:
+					start, end = seq, seq
+				case 1:
+					start, end = 0, seq
+				case 2:
+					start, end = seq, seq+1
+				case 3:
+					start, end = seq/2, seq
+				case 4:
+					start, end = 0, 0
+				}
+				uuid := 100 + uint64(vb)
+				if r.Intn(5) == 0 {
+					uuid = seq
+				}
+				md.docs[vb] = &models.CheckpointDocument{BucketUUID: "b", Checkpoint: &models.CheckpointDocumentCheckpoint{VbUUID: uuid, SeqNo: seq, Snapshot: &models.CheckpointDocumentSnapshot{StartSeqNo: start, EndSeqNo: end}}}
 			}
 		}
 		var offs *wrapper.ConcurrentSwissMap[uint16, *models.Offset]
